@@ -981,6 +981,33 @@ func runAsmPure(m *model.Model, s *ob.Set) {
 				}
 			}
 		}
+		// a wrapper that no longer forwards to a twin at all (the kernel's body written out in its
+		// place) has nothing to agree with: the rules on the portable kernels look at it directly
+		forwards := false
+		for _, b := range fn.Blocks {
+			for _, in := range b.Instrs {
+				if cl, ok := in.(*ssa.Call); ok {
+					if c2 := model.Unthunk(cl.Call.StaticCallee()); c2 != nil && c2.Name() == n+"_g" {
+						forwards = true
+					}
+				}
+			}
+		}
+		// (one call that hands on the parameters as they are is a forwarding — to the wrong routine
+		// if it is not the twin — and is judged below)
+		plainForward := false
+		if ncalls == 1 && call != nil && len(call.Call.Args) == len(fn.Params) {
+			plainForward = true
+			for i, a := range call.Call.Args {
+				if a != ssa.Value(fn.Params[i]) {
+					plainForward = false
+				}
+			}
+		}
+		if !forwards && !plainForward {
+			s.Note(R, c, m.Pos(fn.Pos()), "the routine does not forward to a _g twin (its body is written out here): no forwarding to check")
+			continue
+		}
 		switch {
 		case ncalls != 1 || model.Unthunk(call.Call.StaticCallee()) == nil:
 			why = "the wrapper must consist of exactly one static call"
